@@ -205,8 +205,13 @@ class Report:
             evidence_dir.mkdir(parents=True, exist_ok=True)
             (evidence_dir / f"{self.prop}.json").write_text(json.dumps(ev, indent=1, default=str))
         print("\n".join(lines))
+        if unlisted:
+            # a concrete violation stands even when another rule found fewer instances than expected
+            for f in floor_err:
+                print("info: " + f)
+            return 1
         if floor_err:
             for f in floor_err:
                 print("ANALYSIS-ERROR " + f)
             return 2
-        return 1 if unlisted else 0
+        return 0
